@@ -47,6 +47,8 @@ type cmModel struct {
 	ctors []*kit.Func
 	runM  []*kit.Func
 	stopM []*kit.Func
+	// functions that run under the client state's sync.Once
+	onceBodies map[*kit.Func]bool
 
 	stores []*cmStore
 
@@ -464,18 +466,6 @@ func newCmModel(c *kit.Ctx) *cmModel {
 			}
 		}
 		rt := cmRecvOf(f)
-		if rt == m.cs {
-			for _, call := range f.AllCalls(true) {
-				if x, ok := m.ifaceCall(info, call, "Run"); ok && cmField(info, x) == m.csClient {
-					m.runM = cmAppendFunc(m.runM, f)
-				}
-			}
-			for _, call := range f.AllCalls(true) {
-				if cmIsBuiltin(info, call, "close") && len(call.Args) == 1 && cmField(info, call.Args[0]) == m.csStopCh {
-					m.stopM = cmAppendFunc(m.stopM, f)
-				}
-			}
-		}
 		if rt == m.mgr {
 			for _, call := range f.AllCalls(true) {
 				if cmIsBuiltin(info, call, "close") && len(call.Args) == 1 {
@@ -512,6 +502,7 @@ func newCmModel(c *kit.Ctx) *cmModel {
 			return true
 		})
 	}
+	m.computeRunStop(funcs)
 	if len(m.ctors) == 0 {
 		c.Fatalf("no constructor returning (*%s, error) found", m.cs.Obj().Name())
 	}
@@ -595,35 +586,251 @@ func cmFieldOfStruct(st *types.Struct, fv *types.Var) bool {
 	return false
 }
 
-// isOnceClose: `<r>.<once>.Do(func(){ close(<r>.<stop channel>) })`.
-func (m *cmModel) isOnceClose(f *kit.Func, call *ast.CallExpr) bool {
+// onceBody resolves the argument of `<r>.<once>.Do(arg)` to the function that
+// runs under the Once: a literal, a method value `<r>.g` of the same receiver,
+// or a declared function / local closure.  base is r.
+func (m *cmModel) onceBody(f *kit.Func, call *ast.CallExpr) (body *kit.Func, base types.Object, recvOfBody types.Object) {
 	info := f.Info()
 	if !kit.CallIs(info, call, "sync.(*Once).Do") || len(call.Args) != 1 {
-		return false
+		return nil, nil, nil
 	}
 	sel, ok := ast.Unparen(call.Fun).(*ast.SelectorExpr)
 	if !ok {
+		return nil, nil, nil
+	}
+	of, b := cmFieldOn(info, sel.X)
+	if of != m.csOnce || b == nil {
+		return nil, nil, nil
+	}
+	arg := ast.Unparen(call.Args[0])
+	switch x := arg.(type) {
+	case *ast.FuncLit:
+		return f.Prog.LitFunc(f.PkgRel(), x), b, b
+	case *ast.SelectorExpr:
+		// method value r.g
+		if s := info.Selections[x]; s != nil && s.Kind() == types.MethodVal {
+			if _, isID := ast.Unparen(x.X).(*ast.Ident); isID && kit.ObjOf(info, x.X) == b {
+				if g := f.Prog.FuncOf(s.Obj().(*types.Func).Origin()); g != nil && g.Decl != nil && g.Decl.Recv != nil && len(g.Decl.Recv.List[0].Names) > 0 {
+					return g, b, g.Info().Defs[g.Decl.Recv.List[0].Names[0]]
+				}
+			}
+		}
+	case *ast.Ident:
+		if v, ok := kit.ObjOf(info, x).(*types.Var); ok {
+			if g := f.LocalClosure(v); g != nil {
+				return g, b, b
+			}
+		}
+	}
+	return nil, b, nil
+}
+
+// isOnceClose: `<r>.<once>.Do(body)` where body closes <r>.<stop channel> on every path.
+func (m *cmModel) isOnceClose(f *kit.Func, call *ast.CallExpr) bool {
+	body, _, recv := m.onceBody(f, call)
+	if body == nil || body.Body == nil || recv == nil {
 		return false
 	}
-	of, base := cmFieldOn(info, sel.X)
-	if of != m.csOnce || base == nil {
-		return false
-	}
-	lit, ok := ast.Unparen(call.Args[0]).(*ast.FuncLit)
-	if !ok {
-		return false
-	}
-	lf := f.Prog.LitFunc(f.PkgRel(), lit)
-	if lf == nil {
-		return false
-	}
-	return alwaysCalls(lf, func(c2 *ast.CallExpr) bool {
+	info := body.Info()
+	return alwaysCalls(body, func(c2 *ast.CallExpr) bool {
 		if !cmIsBuiltin(info, c2, "close") || len(c2.Args) != 1 {
 			return false
 		}
 		cf, cb := cmFieldOn(info, c2.Args[0])
-		return cf == m.csStopCh && cb == base
+		return cf == m.csStopCh && cb == recv
 	})
+}
+
+// callSites counts the static call sites of g and reports whether g is also
+// reachable from outside a once body (a call in another function, or a use as a
+// value other than the argument of the client state's Once.Do).
+func (m *cmModel) callSites(funcs []*kit.Func, g *kit.Func) (sites int, outside bool) {
+	for _, f := range funcs {
+		if f.Body == nil {
+			continue
+		}
+		info := f.Info()
+		cmOwn(f.Body, func(n ast.Node) bool {
+			switch x := n.(type) {
+			case *ast.CallExpr:
+				if f.CalleeFunc(x) == g {
+					sites++
+					if !m.onceBodies[f] {
+						outside = true
+					}
+				}
+			case *ast.SelectorExpr, *ast.Ident:
+				e := x.(ast.Expr)
+				if id, isID := e.(*ast.Ident); isID {
+					if _, isSel := f.Prog.Parent(f.File, id).(*ast.SelectorExpr); isSel {
+						return true
+					}
+				}
+				var fn *types.Func
+				if sel, ok := e.(*ast.SelectorExpr); ok {
+					if sn := info.Selections[sel]; sn != nil && sn.Kind() == types.MethodVal {
+						fn, _ = sn.Obj().(*types.Func)
+					} else {
+						fn, _ = info.Uses[sel.Sel].(*types.Func)
+					}
+				} else {
+					fn, _ = info.Uses[e.(*ast.Ident)].(*types.Func)
+				}
+				if fn == nil || g.Obj == nil || fn.Origin() != g.Obj {
+					return true
+				}
+				par := f.Prog.Parent(f.File, e)
+				if call, ok := par.(*ast.CallExpr); ok {
+					if ast.Unparen(call.Fun) == e {
+						return true // counted as a call
+					}
+					if body, _, _ := m.onceBody(f, call); body == g {
+						return true // the argument of Once.Do
+					}
+				}
+				outside = true
+			}
+			return true
+		})
+	}
+	return sites, outside
+}
+
+// cmAlways reports whether every returning path through f performs a call for
+// which pred holds; callees of the same package are evaluated inline (cur is the
+// function the call is located in).
+func cmAlways(f *kit.Func, pred func(cur *kit.Func, call *ast.CallExpr) bool) bool {
+	st := &kit.Std{F: f}
+	st.ShouldInline = func(*kit.Func, *ast.CallExpr) bool { return true }
+	st.OnCall = func(call *ast.CallExpr, n ast.Node, s kit.S) []kit.S {
+		if pred(st.Cur(), call) {
+			return []kit.S{s.Set("hit", "1")}
+		}
+		return nil
+	}
+	res := f.Prog.Graph(f).Run(kit.NewS(), st.Client())
+	n := 0
+	for _, e := range res.Exits {
+		if e.Return == nil {
+			continue
+		}
+		n++
+		if e.State.Get("hit") != "1" {
+			return false
+		}
+	}
+	return n > 0 && !res.Overflow
+}
+
+// computeRunStop finds the run and stop methods of the client state.
+//
+//   - once bodies: functions that run under `<r>.<once>.Do(…)`;
+//   - stop methods: methods of the client state whose own body performs that
+//     Do, or closes the stop channel outside a once body (wrappers around them
+//     are seen by inlining);
+//   - run methods: methods of the client state from which a call of the
+//     interface's Run is reachable through static calls, go statements and
+//     literals of the package.
+func (m *cmModel) computeRunStop(funcs []*kit.Func) {
+	m.onceBodies = map[*kit.Func]bool{}
+	for _, f := range funcs {
+		if f.Body == nil {
+			continue
+		}
+		for _, call := range f.AllCalls(false) {
+			if body, _, _ := m.onceBody(f, call); body != nil {
+				m.onceBodies[body] = true
+			}
+		}
+	}
+	// helpers that are only ever called from once bodies run under the Once as well
+	for changed := true; changed; {
+		changed = false
+		for _, g := range funcs {
+			if g.Body == nil || g.Decl == nil || m.onceBodies[g] {
+				continue
+			}
+			sites, outside := m.callSites(funcs, g)
+			if sites > 0 && !outside {
+				m.onceBodies[g] = true
+				changed = true
+			}
+		}
+	}
+	reach := map[*kit.Func]bool{}
+	for _, f := range funcs {
+		if f.Body == nil {
+			continue
+		}
+		info := f.Info()
+		for _, call := range f.AllCalls(false) {
+			if x, ok := m.ifaceCall(info, call, "Run"); ok && cmField(info, x) == m.csClient {
+				reach[f] = true
+			}
+		}
+	}
+	for changed := true; changed; {
+		changed = false
+		for _, f := range funcs {
+			if f.Body == nil || reach[f] {
+				continue
+			}
+			hit := false
+			ast.Inspect(f.Body, func(n ast.Node) bool {
+				switch x := n.(type) {
+				case *ast.FuncLit:
+					if lf := f.Prog.LitFunc(f.PkgRel(), x); lf != nil && reach[lf] {
+						hit = true
+					}
+					return false
+				case *ast.CallExpr:
+					if cf := f.CalleeFunc(x); cf != nil && reach[cf] {
+						hit = true
+					}
+				}
+				return true
+			})
+			if hit {
+				reach[f] = true
+				changed = true
+			}
+		}
+	}
+	for _, f := range funcs {
+		if f.Body == nil || f.Decl == nil || cmRecvOf(f) != m.cs {
+			continue
+		}
+		info := f.Info()
+		if reach[f] {
+			m.runM = cmAppendFunc(m.runM, f)
+		}
+		if m.onceBodies[f] {
+			continue
+		}
+		isStop := false
+		ast.Inspect(f.Body, func(n ast.Node) bool {
+			if lit, isLit := n.(*ast.FuncLit); isLit {
+				if lf := f.Prog.LitFunc(f.PkgRel(), lit); lf != nil && m.onceBodies[lf] {
+					return false
+				}
+				return true
+			}
+			call, ok := n.(*ast.CallExpr)
+			if !ok {
+				return true
+			}
+			if _, b, _ := m.onceBody(f, call); b != nil {
+				isStop = true
+			}
+			if cmIsBuiltin(info, call, "close") && len(call.Args) == 1 && cmField(info, call.Args[0]) == m.csStopCh {
+				isStop = true
+			}
+			return true
+		})
+		if isStop {
+			m.stopM = cmAppendFunc(m.stopM, f)
+		}
+	}
 }
 
 // isStopCall: call of a stop method of the client state; returns the receiver expression.
@@ -719,6 +926,42 @@ func (m *cmModel) keyClauses() []cmKeyClause {
 	return out
 }
 
+// deletesKey reports whether node n of f deletes map[key], directly or through
+// a function of the package that receives key as an argument (two levels).
+func (m *cmModel) deletesKey(f *kit.Func, n ast.Node, key types.Object, depth int) bool {
+	info := f.Info()
+	found := false
+	cmOwn(n, func(x ast.Node) bool {
+		call, ok := x.(*ast.CallExpr)
+		if !ok || found {
+			return true
+		}
+		if cmIsBuiltin(info, call, "delete") && len(call.Args) == 2 && m.isMapExpr(info, call.Args[0]) && kit.ObjOf(info, call.Args[1]) == key {
+			if _, isID := ast.Unparen(call.Args[1]).(*ast.Ident); isID {
+				found = true
+			}
+			return true
+		}
+		if depth >= 2 {
+			return true
+		}
+		cf := f.CalleeFunc(call)
+		if cf == nil || cf.Body == nil || cf.Pkg != f.Pkg {
+			return true
+		}
+		ps := cf.Params()
+		for i, a := range call.Args {
+			if i < len(ps) && kit.ObjOf(info, a) == key && cmAssignCount(cf, ps[i]) == 0 {
+				if _, isID := ast.Unparen(a).(*ast.Ident); isID && m.deletesKey(cf, cf.Body, ps[i], depth+1) {
+					found = true
+				}
+			}
+		}
+		return true
+	})
+	return found
+}
+
 func (m *cmModel) computeExitChannels() {
 	kcs := m.keyClauses()
 	// base: the clause deletes map[key] of the received key
@@ -727,15 +970,12 @@ func (m *cmModel) computeExitChannels() {
 		if cmAssignCount(kc.f.Root(), kc.key) != 1 {
 			continue
 		}
+		_ = info
 		found := false
 		for _, st := range kc.cc.Body {
-			cmOwn(st, func(x ast.Node) bool {
-				if call, ok := x.(*ast.CallExpr); ok && cmIsBuiltin(info, call, "delete") && len(call.Args) == 2 &&
-					m.isMapExpr(info, call.Args[0]) && kit.ObjOf(info, call.Args[1]) == kc.key {
-					found = true
-				}
-				return true
-			})
+			if m.deletesKey(kc.f, st, kc.key, 0) {
+				found = true
+			}
 		}
 		if found {
 			m.exitCh[kc.ch] = true
@@ -751,9 +991,10 @@ func (m *cmModel) computeExitChannels() {
 			}
 			info := kc.f.Info()
 			st := &kit.Std{F: kc.f}
+			st.ShouldInline = func(*kit.Func, *ast.CallExpr) bool { return true }
 			st.OnNode = func(n ast.Node, s kit.S) []kit.S {
 				if snd, ok := n.(*ast.SendStmt); ok {
-					if ch := m.keyChan(info, snd.Chan); ch != nil && m.exitCh[ch] && kit.ObjOf(info, snd.Value) == kc.key {
+					if ch := m.keyChan(info, snd.Chan); ch != nil && m.exitCh[ch] && st.ObjOf(snd.Value) == kc.key {
 						s = s.Set("fwd", "1")
 					}
 				}
@@ -903,8 +1144,19 @@ func (m *cmModel) cmLenAtom(info *types.Info, e ast.Expr) (emptyWhenTrue, ok boo
 	return at0, true
 }
 
-// cmIsLibraryCall: callee is a function or method declared outside the analysed module.
+// cmIsLibraryCall: callee is a function or method declared outside the analysed
+// module, or a method of an interface value (its body is not part of the
+// analysed functions and cannot reach their locals).
 func cmIsLibraryCall(info *types.Info, call *ast.CallExpr) bool {
+	if sel, ok := ast.Unparen(call.Fun).(*ast.SelectorExpr); ok {
+		if sn := info.Selections[sel]; sn != nil && sn.Kind() == types.MethodVal {
+			if t := info.TypeOf(sel.X); t != nil {
+				if _, isIface := t.Underlying().(*types.Interface); isIface {
+					return true
+				}
+			}
+		}
+	}
 	obj := kit.Callee(info, call)
 	switch o := obj.(type) {
 	case *types.Builtin:
